@@ -16,6 +16,11 @@ package agreement
 // executions with <= 2 crash-restarts placed at every decision point of the synchronous schedule
 // (quick: total <= 2 deviations for 3 proposers, <= 3 for 1 proposer; further deviation kinds: one
 // lost message, one message held back past a timeout).
+// crashlose-2rounds (two rounds): a crash-restart in which the node's ledger lost its last block (crash
+// database one round ahead of the ledger); the block comes back through catch-up at any later decision
+// point. Whether Service.mainLoop keeps a restored state that is ahead of the ledger is PROBED on the real
+// mainLoop with a ledger one round behind (same probe as below), so seeded change C02-A (`!=` instead of
+// `<` in that decision) is DETECTED: the node re-runs an already voted round.
 // Oracle (ghost state per account that survives restarts, part of the canonical state): the votes
 // released through the loopback by an account contain at most one value per (round, period, step),
 // proposal-votes included. A panic inside submitTop is a violation.
